@@ -94,9 +94,10 @@ impl Ctx {
     }
     pub fn note(&mut self, f: impl FnOnce() -> String) {
         if self.verbose {
-            if self.desc.len() < 400 {
+            let cap = note_cap();
+            if self.desc.len() < cap {
                 self.desc.push(f());
-            } else if self.desc.len() == 400 {
+            } else if self.desc.len() == cap {
                 self.desc.push("...".into());
             }
         }
@@ -116,6 +117,11 @@ impl Ctx {
             Err(f)
         }
     }
+}
+
+fn note_cap() -> usize {
+    static CAP: std::sync::OnceLock<usize> = std::sync::OnceLock::new();
+    *CAP.get_or_init(|| std::env::var("VERIF_NOTE_CAP").ok().and_then(|s| s.parse().ok()).unwrap_or(400))
 }
 
 pub fn key_matches(pattern: &str, key: &str) -> bool {
